@@ -484,3 +484,52 @@ func VerifC15_InboundMalformed() {
 		zz.Reach("malformed first message: no handler")
 	}
 }
+
+// VerifC15_AttemptBudgetIsPerSend: the configured number of stream-open attempts belongs to each
+// send: a send made after one that used up its attempts (or part of them) still gets the full
+// budget, and succeeds exactly when one of ITS attempts succeeds.
+//
+//verif:opts fuel=60 replay=engine
+func VerifC15_AttemptBudgetIsPerSend() {
+	f := verifNewSendFixture()
+	zz.Assume(f.h.stream.proto == datatransfer.ProtocolDataTransfer1_2)
+	f.h.stream.reliable = true
+	n := f.n
+	k := zz.Choice("failuresOfSecondSend", 2) // 0 or 1 failed attempts before the second send gets through
+	zz.Assume(k < n)
+	firstFails := zz.Choice("failuresOfFirstSend", 3) // 0, 1 or "all"
+	var script []bool
+	first := n
+	if firstFails < 2 && firstFails < n {
+		first = firstFails
+	}
+	for i := 0; i < first; i++ {
+		script = append(script, false)
+	}
+	if first < n {
+		script = append(script, true) // the first send gets through after `first` failures
+	}
+	used := len(script)
+	for i := 0; i < k; i++ {
+		script = append(script, false)
+	}
+	script = append(script, true)
+	f.h.script = script
+	msg1, conv1 := verifArbitraryMsg(f.log, "msg1"), verifArbitraryMsg(f.log, "conv1")
+	msg1.conv = conv1
+	err1 := f.impl.SendMessage(context.Background(), f.p, msg1)
+	zz.Assert((err1 == nil) == (first < n), "the first send succeeds exactly when one of its attempts did")
+	zz.Assert(f.h.nCalls() == used, "and made exactly the attempts it needed / was allowed")
+	f.h.sendStart = f.h.nCalls()
+	msg2, conv2 := verifArbitraryMsg(f.log, "msg2"), verifArbitraryMsg(f.log, "conv2")
+	msg2.conv = conv2
+	err2 := f.impl.SendMessage(context.Background(), f.p, msg2)
+	zz.Assert(err2 == nil, "the second send has its own full budget: it succeeds because one of its attempts does")
+	zz.Assert(f.h.nCalls() == used+k+1, "after exactly its own failed attempts plus one")
+	if first == n {
+		zz.Reach("second send after an exhausted one")
+	}
+	if k > 0 {
+		zz.Reach("second send needed a retry")
+	}
+}
